@@ -162,6 +162,16 @@ def run(ctx):
                     if d:
                         f = "tree differs from the parse of the inlined text at %s" % d
             case = {"graph": [list(t) for t in graph], "placement": placement, "texts": texts}
+            if f is None:
+                # read_default(caller) = the parameter file next to the caller, with includes processed
+                try:
+                    rd = ("ok", freephil.read_default(caller_file_name=os.path.splitext(root)[0] + ".py").as_str(attributes_level=2))
+                except RuntimeError as e:
+                    rd = ("err", str(e))
+                ref = ("ok", got.as_str(attributes_level=2)) if err is None else ("err", str(err))
+                if rd != ref:
+                    f = "read_default(caller next to the root file) gives %r, parse(file, includes) %r" % (rd[1][:80], ref[1][:80])
+                ctx.count("read_default")
             if f:
                 ctx.fail(case, f)
             ia = call_j(lambda: freephil.parse(file_name=root, process_includes=True),
